@@ -518,3 +518,19 @@ Proof.
   - intros Z. rewrite Z in E. discriminate.
   - apply (reach_settled c); auto. apply (no_crash c); auto.
 Qed.
+
+(* the same, as one equation: the restarted state IS the freshly started initial state, except for
+   - the history: the (finished) tasks and units, the callback table and counter, the start/close counters;
+   - what the environment has pending: API calls not yet run ([ops]), WaitStatus calls ([waits]), ended caller
+     contexts ([ended]) and the state of the transport ([send_fail]) *)
+Theorem restart_fresh_eq c s : reach c s -> wg s = 0 -> running s = false ->
+  started s = started (init_of c)
+                <| tasks := tasks s |> <| units := units s |>
+                <| calls := calls s |> <| call_id := call_id s |> <| cbs := cbs s |>
+                <| starts := S (starts s) |> <| closes := closes s |>
+                <| ops := ops s |> <| waits := waits s |> <| ended := ended s |> <| send_fail := send_fail s |>.
+Proof.
+  intros R Z Rn. destruct (restart_fresh _ _ R Z Rn) as (_ & F & _).
+  destruct F as [F1 F2 F3 F4 F5 F6 F7 F8 F9 F10 F11 F12 F13 (G1 & G2 & G3 & G4 & G5) _ _ _].
+  unfold started in *. destruct s. cbn in *. subst. reflexivity.
+Qed.
